@@ -1,8 +1,316 @@
 import IstioModel.C09.Model
 
-/-! C09 - authenticator post-processing (placeholder, filled in by scope 2). -/
+/-!
+C09 - authenticator post-processing: how each authenticator of the CA server turns a validated
+credential into `Caller.Identities`.
+
+Go sources modelled (istio/istio):
+  security/pkg/server/ca/authenticate/oidc.go                JwtAuthenticator.authenticate (sub parsing, checkAudience)
+  security/pkg/server/ca/authenticate/kubeauth/kube_jwt.go   authenticateGrpc, authenticate, getKubeClient
+  security/pkg/k8s/tokenreview/k8sauthn.go                   getTokenReviewResult, extractExtra
+  security/pkg/server/ca/authenticate/xfcc_authenticator.go  Authenticate, isTrustedAddress, isInRange, buildSecurityCaller
+  security/pkg/server/ca/authenticate/cert_authenticator.go  authenticateGrpc
+  security/pkg/pki/util/san.go                               ExtractIDs (values of the SAN entries)
+  pkg/spiffe/spiffe.go                                       genSpiffeURI, sanitizeTrustDomain
+  net (Go 1.26)                                              SplitHostPort
+  net/netip (Go 1.26)                                        ParsePrefix, Prefix.Contains, Addr.IsLoopback, MustParseAddr
+
+Outside the model (inputs): token cryptography (the OIDC verifier's verdict and the claims it
+releases; the TokenReview answer of the API server), the third-party XFCC header grammar
+(`xfccparser.ParseXFCCHeader`: its parse result is an input), TLS chain verification.
+
+`fixed` selects the code before (`false`) / after (`true`) the `fix:` commit adding the bounds
+check on the fields of the OIDC `sub` claim.
+-/
 namespace IstioModel.C09
 
-def stepAuthn (_ : List String) : String := "bad-op"
+/-- result of `Authenticator.Authenticate`: panic, `(nil, nil)`, `(nil, err)`, `(caller, nil)` -/
+inductive AuthRes
+  | crash
+  | nil
+  | err
+  | ok (c : Caller)
+  deriving DecidableEq, Repr
+
+/-- `sanitizeTrustDomain`: '@' becomes '.' -/
+def sanitizeTD (td : String) : String := String.ofList (td.toList.map (fun c => if c = '@' then '.' else c))
+
+/-- `genSpiffeURI` -/
+def spiffeURI (td ns sa : String) : String := "spiffe://" ++ sanitizeTD td ++ "/ns/" ++ ns ++ "/sa/" ++ sa
+
+/-! ## OIDC (`oidc.go`) -/
+
+/-- what the OIDC verifier made of the bearer token -/
+inductive OidcTok
+  | noHeader                                   -- no bearer token in the metadata
+  | rejected                                   -- verifier.Verify failed (signature, issuer, expiry, format)
+  | badClaims                                  -- verified, but the payload does not unmarshal into JwtPayload
+  | claims (sub : String) (aud : List String)  -- verified payload
+  deriving DecidableEq, Repr
+
+def checkAudience (toCheck expected : List String) : Bool := toCheck.any (fun a => expected.contains a)
+
+def oidcSubPrefix : String := "system:serviceaccount"
+
+/-- `JwtAuthenticator.authenticate` after the verifier accepted the token and released its claims -/
+def oidcClaims (fixed : Bool) (td : String) (expected : List String) (sub : String) (aud : List String) : AuthRes :=
+  if !hasPrefix sub oidcSubPrefix then .err
+  else if fixed ∧ (split ':' sub).length < 4 then .err
+  else
+    match (split ':' sub)[2]?, (split ':' sub)[3]? with
+    | some ns, some sa =>
+      if !checkAudience aud expected then .err
+      else .ok { identities := [spiffeURI td ns sa] }
+    | _, _ => .crash
+
+/-- `JwtAuthenticator.Authenticate` for a gRPC request. -/
+def oidcAuthenticate (fixed : Bool) (td : String) (expected : List String) : OidcTok → AuthRes
+  | .noHeader => .err
+  | .rejected => .err
+  | .badClaims => .err
+  | .claims sub aud => oidcClaims fixed td expected sub aud
+
+/-- The code as it is in /repo now. -/
+def repoOidcFixed : Bool := true
+
+/-! ## Kubernetes JWT (`kube_jwt.go`, `tokenreview`) -/
+
+/-- the API server's answer to the TokenReview -/
+structure Review where
+  apiErr        : Bool := false                   -- the Create call failed
+  error         : String := ""                    -- Status.Error
+  authenticated : Bool := true
+  groups        : List String := []
+  username      : String := ""
+  podName       : Option (List String) := none    -- Extra["authentication.kubernetes.io/pod-name"]
+  podUID        : Option (List String) := none    -- Extra["authentication.kubernetes.io/pod-uid"]
+  deriving DecidableEq, Repr
+
+def extractExtra : Option (List String) → String
+  | some (v :: _) => v
+  | _ => ""
+
+/-- `getTokenReviewResult` (after a successful Create) -/
+def tokenReviewResult (r : Review) : Option KubeInfo :=
+  if r.apiErr then none
+  else if r.error ≠ "" then none
+  else if !r.authenticated then none
+  else if !r.groups.contains "system:serviceaccounts" then none
+  else
+    match split ':' r.username with
+    | [_, _, ns, sa] => some { podName := extractExtra r.podName, podNamespace := ns, podUID := extractExtra r.podUID, podSA := sa }
+    | _ => none
+
+structure KubeCfg where
+  primary : String                        -- clusterID of the primary cluster
+  aliases : List (String × String)        -- clusterAliases
+  remotes : Option (List String)          -- clusters the remote getter has clients for; `none`: no getter
+  deriving DecidableEq, Repr
+
+def aliasOf (cfg : KubeCfg) (id : String) : String :=
+  match cfg.aliases.find? (fun kv => kv.1 = id) with
+  | some kv => kv.2
+  | none => ""
+
+inductive Client
+  | primary
+  | remote (id : String)
+  deriving DecidableEq, Repr
+
+/-- `getKubeClient` -/
+def getKubeClient (cfg : KubeCfg) (clusterID : String) : Option Client :=
+  if cfg.primary = clusterID ∨ cfg.primary = aliasOf cfg clusterID ∨ clusterID = "" then some .primary
+  else
+    match cfg.remotes with
+    | none => none
+    | some rs =>
+      if rs.contains clusterID then some (.remote clusterID)
+      else if rs.contains (aliasOf cfg clusterID) then some (.remote (aliasOf cfg clusterID))
+      else none
+
+/-- `ExtractClusterID` on the metadata values -/
+def clusterIDOf : Option (List String) → String
+  | some [x] => x
+  | _ => ""
+
+/-- `KubeJWTAuthenticator.Authenticate` for a gRPC request: the result and the cluster whose API
+    server reviewed the token. -/
+def kubeAuthenticate (td : String) (cfg : KubeCfg) (clusterHdr : Option (List String)) (bearer : Bool)
+    (r : Review) : AuthRes × Option Client :=
+  if !bearer then (.err, none)
+  else
+    match getKubeClient cfg (clusterIDOf clusterHdr) with
+    | none => (.err, none)
+    | some cl =>
+      match tokenReviewResult r with
+      | none => (.err, some cl)
+      | some k =>
+        if k.podSA = "" then (.err, some cl)
+        else if k.podNamespace = "" then (.err, some cl)
+        else (.ok { identities := [spiffeURI td k.podNamespace k.podSA], kube := k }, some cl)
+
+/-! ## XFCC (`xfcc_authenticator.go`) -/
+
+/-- `netip.Addr` as far as `Prefix.Contains` / `IsLoopback` read it -/
+structure Addr where
+  v6    : Bool
+  bytes : List Nat
+  zone  : Bool
+  deriving DecidableEq, Repr
+
+/-- `netip.ParseAddr` keeping family and zone -/
+def parseAddrFull (s : List Char) : Option Addr :=
+  match firstSpecial s with
+  | none => none
+  | some c =>
+    if c = '.' then (ipv4Fields s).map (fun b => { v6 := false, bytes := b, zone := false })
+    else if c = ':' then (parseIPv6 s).map (fun b => { v6 := true, bytes := b, zone := s.contains '%' })
+    else none
+
+def lastIndexOf (c : Char) (s : List Char) : Option Nat :=
+  (List.range s.length).reverse.find? (fun i => s[i]? = some c)
+
+/-- `net.SplitHostPort`: the host part, `none` on any error -/
+def splitHostPort (s : List Char) : Option (List Char) :=
+  match lastIndexOf ':' s with
+  | none => none
+  | some i =>
+    if s.head? = some '[' then
+      match s.findIdx? (· == ']') with
+      | none => none
+      | some e =>
+        if e + 1 = s.length then none
+        else if e + 1 ≠ i then none
+        else
+          let host := (s.take e).drop 1
+          if (s.drop 1).contains '[' then none
+          else if (s.drop (e + 1)).contains ']' then none
+          else some host
+    else
+      let host := s.take i
+      if host.contains ':' then none
+      else if s.contains '[' then none
+      else if s.contains ']' then none
+      else some host
+
+/-- decimal digits only, no sign -/
+def parseBits (s : List Char) : Option Nat :=
+  if s.isEmpty then none
+  else if s.length > 1 ∧ (s.head? = some '0' ∨ !(s.headD '0').isDigit) then none
+  else if s.all Char.isDigit then some (s.foldl (fun a c => a * 10 + (c.toNat - 48)) 0) else none
+
+/-- `netip.ParsePrefix` -/
+def parsePrefix (s : List Char) : Option (Addr × Nat) :=
+  match lastIndexOf '/' s with
+  | none => none
+  | some i =>
+    match parseAddrFull (s.take i) with
+    | none => none
+    | some ip =>
+      if ip.v6 ∧ ip.zone then none
+      else
+        match parseBits (s.drop (i + 1)) with
+        | none => none
+        | some bits => if bits > (if ip.v6 then 128 else 32) then none else some (ip, bits)
+
+def bytesToNat (b : List Nat) : Nat := b.foldl (fun a x => a * 256 + x) 0
+
+/-- `Prefix.Contains` -/
+def prefixContains (p : Addr × Nat) (ip : Addr) : Bool :=
+  if ip.zone then false
+  else if p.1.v6 ≠ ip.v6 then false
+  else
+    let w := if ip.v6 then 128 else 32
+    bytesToNat ip.bytes >>> (w - p.2) == bytesToNat p.1.bytes >>> (w - p.2)
+
+/-- `Addr.IsLoopback` -/
+def isLoopback (ip : Addr) : Bool :=
+  let b := if ip.v6 then shorten4in6 ip.bytes else ip.bytes
+  if b.length = 4 then b.head? = some 127 else b = List.replicate 15 0 ++ [1]
+
+inductive Trust
+  | crash | no | yes
+  deriving DecidableEq, Repr
+
+/-- `isInRange(ip, cidr)`: `MustParseAddr(ip)` is reached only once the CIDR has parsed -/
+def isInRange (ip : Option Addr) (cidr : String) : Trust :=
+  if !cidr.toList.contains '/' then .no
+  else
+    match parsePrefix cidr.toList with
+    | none => .no
+    | some p =>
+      match ip with
+      | none => .crash
+      | some a => if prefixContains p a then .yes else .no
+
+def inAnyRange (ip : Option Addr) : List String → Trust
+  | [] => .no
+  | c :: cs =>
+    match isInRange ip c with
+    | .crash => .crash
+    | .yes => .yes
+    | .no => inAnyRange ip cs
+
+/-- `isTrustedAddress(addr, trustedCidrs)` -/
+def isTrustedAddress (addr : String) (cidrs : List String) : Trust :=
+  match splitHostPort addr.toList with
+  | none => .no
+  | some host =>
+    match inAnyRange (parseAddrFull host) cidrs with
+    | .crash => .crash
+    | .yes => .yes
+    | .no =>
+      match parseAddrFull host with
+      | none => .crash
+      | some a => if isLoopback a then .yes else .no
+
+/-- one element of a parsed XFCC header (`xfccparser.ClientCert`) -/
+structure XfccElem where
+  uris    : List String
+  dns     : List String
+  subject : Option String     -- Subject.CommonName when a Subject is present
+  deriving DecidableEq, Repr
+
+def xfccIDs (es : List XfccElem) : List String :=
+  es.flatMap (fun e => e.uris ++ e.dns ++ (match e.subject with | some cn => [cn] | none => []))
+
+/-- `XfccAuthenticator.Authenticate`; `parsed` is `xfccparser.ParseXFCCHeader(headers[0])`. -/
+def xfccAuthenticate (cidrs : List String) (remoteAddr : String) (headers : List String)
+    (parsed : Option (List XfccElem)) : AuthRes :=
+  if remoteAddr.isEmpty ∨ headers.isEmpty then .err
+  else
+    match isTrustedAddress remoteAddr cidrs with
+    | .crash => .crash
+    | .no => .err
+    | .yes =>
+      match parsed with
+      | none => .err
+      | some [] => .err
+      | some (e :: es) => .ok { identities := xfccIDs (e :: es) }
+
+/-! ## Client certificate (`cert_authenticator.go`) -/
+
+inductive PeerKind
+  | noPeer | noAuth | other | tls
+  deriving DecidableEq, Repr
+
+/-- the SAN extension of a certificate as `ExtractIDs` sees it -/
+inductive CertSAN
+  | noSan
+  | bad
+  | san (values : List String)
+  deriving DecidableEq, Repr
+
+/-- `ClientCertAuthenticator.authenticateGrpc` over `tlsInfo.State.VerifiedChains` -/
+def certAuthenticate (k : PeerKind) (chains : List (List CertSAN)) : AuthRes :=
+  match k with
+  | .tls =>
+    match chains with
+    | (c :: _) :: _ =>
+      match c with
+      | .san vs => .ok { identities := vs }
+      | _ => .err
+    | _ => .err
+  | _ => .err
 
 end IstioModel.C09
